@@ -132,6 +132,8 @@ pub fn install_panic_hook() {
             // must survive unrelated edits)
             let file = info.location().map_or("?", |l| l.file());
             let file = file.strip_prefix("/repo/").unwrap_or(file);
+            // "/rustc/<commit hash>/library/..." -> "library/..."
+            let file = file.strip_prefix("/rustc/").and_then(|f| f.split_once('/')).map_or(file, |(_, rest)| rest);
             let mut lines = msg.lines();
             let mut msg = format!("{} (in {file})", lines.next().unwrap_or(""));
             for l in lines {
